@@ -51,6 +51,9 @@ pub struct OStats {
     pub probes_excluded: u64,
     pub api_probes: u64,
     pub resolver_probes: u64,
+    pub resolver_calls: u64,
+    pub resolver_answers: u64,
+    pub resolver_deadlines_judged: u64,
     pub panics_seen: u64,
     pub refresh_queries: u64,
     pub truncated_accepted: u64,
@@ -74,7 +77,7 @@ impl OStats {
             ingest_filtered_own, ingest_filtered_foreign, known_exact, known_exact_nonempty, known_safety_only,
             known_with_expired_entries, discovered_judged, discovered_skipped, dumps_judged, dump_entries,
             dumps_with_expired, c16_instances, c16_dump_checks, probes_sent, probes_answered, probes_excluded,
-            api_probes, resolver_probes, panics_seen, refresh_queries, truncated_accepted, announcements_judged, replies_in_several_datagrams, tokio_windows, tokio_replies_judged, tokio_known_exact, tokio_ingests, ipv6_ingests, ipv6_replies_judged);
+            api_probes, resolver_probes, resolver_calls, resolver_answers, resolver_deadlines_judged, panics_seen, refresh_queries, truncated_accepted, announcements_judged, replies_in_several_datagrams, tokio_windows, tokio_replies_judged, tokio_known_exact, tokio_ingests, ipv6_ingests, ipv6_replies_judged);
     }
 }
 
@@ -459,6 +462,53 @@ pub fn analyse(sc: &Scenario, out: &RunOutput) -> Analysis {
                 api_probe_ok.insert(*node, *ok);
             }
             ObsItem::Resolver { node, start_ns, end_ns, timeout_ms, probe, result, .. } => {
+                if !*probe {
+                    st.resolver_calls += 1;
+                    if result.contains("Ok(Some") {
+                        st.resolver_answers += 1;
+                    }
+                    // Bounded liveness of a one-shot query: once the time-out counted from the
+                    // call's last own transmission has passed, the call may still be busy with
+                    // datagrams that keep arriving, but it must not sit idle. `idle` = no
+                    // datagram dequeued and nothing sent by the calling thread for QUIET ms.
+                    // Judged only where nothing else delays a thread (no stall, pre-emption,
+                    // oversleep or clock jump in the run).
+                    const QUIET_MS: u64 = 600;
+                    let undisturbed = sc.knobs.preempt_ppm == 0
+                        && sc.knobs.oversleep_max_ns == 0
+                        && !sc.root.iter().any(|(_, st)| matches!(st, crate::scenario::RootStep::Stall { .. } | crate::scenario::RootStep::ClockJump { .. } | crate::scenario::RootStep::Crash { .. }));
+                    if undisturbed && !result.contains("<panicked>") {
+                        let app = format!("app:{}", node);
+                        let mut last_send = *start_ns;
+                        let mut acts: Vec<u64> = Vec::new();
+                        for e in &res.trace {
+                            if e.t < *start_ns || e.t > *end_ns || res.thread_names[e.tid as usize] != app {
+                                continue;
+                            }
+                            match e.kind {
+                                EvKind::Send { .. } => {
+                                    last_send = e.t;
+                                    acts.push(e.t);
+                                }
+                                EvKind::Recv { .. } => acts.push(e.t),
+                                _ => {}
+                            }
+                        }
+                        let due = last_send + *timeout_ms * 1_000_000;
+                        let mut prev = due;
+                        let mut worst = 0u64;
+                        for t in acts.iter().copied().filter(|t| *t > due).chain(std::iter::once(*end_ns)) {
+                            if t > prev {
+                                worst = worst.max(t - prev);
+                                prev = t;
+                            }
+                        }
+                        st.resolver_deadlines_judged += 1;
+                        if *end_ns > due && worst > QUIET_MS * 1_000_000 {
+                            push("C14", "resolver-query-outlives-deadline".into(), format!("node {}: one-shot query ({} ms time-out, last own transmission at t={} ms) returned at t={} ms although, after the time-out, its thread went {} ms without receiving or sending anything ({})", node, timeout_ms, last_send / 1_000_000, end_ns / 1_000_000, worst / 1_000_000, result));
+                        }
+                    }
+                }
                 if *probe {
                     st.resolver_probes += 1;
                     if end_ns.saturating_sub(*start_ns) > (*timeout_ms + 1000) * 1_000_000 {
@@ -587,6 +637,10 @@ pub fn analyse(sc: &Scenario, out: &RunOutput) -> Analysis {
         }};
     }
 
+    // the simulated locks that guard a record store (marked by the runner after construction);
+    // a changed repository may use further locks, which say nothing about the store
+    let store_locks: HashSet<u32> = res.marks.iter().filter_map(|m| m.strip_prefix("storelock:").and_then(|x| x.parse().ok())).collect();
+    let is_store_lock = |l: u32| store_locks.is_empty() || store_locks.contains(&l);
     for ev in &res.trace {
         let Ev { seq, lt, tid, node, kind, t: tglob } = ev;
         let (seq, lt, tid, node, tglob) = (*seq, *lt, *tid, *node, *tglob);
@@ -657,9 +711,12 @@ pub fn analyse(sc: &Scenario, out: &RunOutput) -> Analysis {
                     close_window!(tid, w, true);
                 }
             }
-            EvKind::LockBlock { .. } => {
-                lock_wait.insert(tid, true);
+            EvKind::LockBlock { lock, .. } => {
+                if is_store_lock(*lock) {
+                    lock_wait.insert(tid, true);
+                }
             }
+            EvKind::LockAcq { lock, .. } if !is_store_lock(*lock) => {}
             EvKind::LockAcq { write, .. } => {
                 if lock_wait.remove(&tid).is_some() && *write {
                     st.writer_waited_for_reader += 1;
